@@ -35,7 +35,7 @@ def diff_orient(ctx):
         dec = list(decisions)
         taken = []
         flips = {}          # column -> sign flips applied in place
-        notes = {'resampled': [], 'denser': []}
+        notes = {'resampled': [], 'denser': [], 'span': []}
 
         def density_test(t, d):
             """median(diff(X.index)) OP median(diff(Y.index)) -> orientation of the denser
@@ -50,9 +50,12 @@ def diff_orient(ctx):
             for side in (t.left, t.comparators[0]):
                 nm = [x for x in ast.walk(side) if isinstance(x, ast.Attribute) and
                       x.attr == 'index' and isinstance(x.value, ast.Name)]
-                if len(nm) != 1 or 'diff' not in norm_text(side):
+                # a local that holds the index of an operand (`t_first = first.index`)
+                held = [x for x in ast.walk(side) if isinstance(x, ast.Name) and
+                        isinstance(env.get(x.id), tuple) and env[x.id][:1] == ('idx',)]
+                if 'diff' not in norm_text(side) or len(nm) + len(held) != 1:
                     return
-                sides.append(env.get(nm[0].value.id))
+                sides.append(env.get(nm[0].value.id) if nm else env[held[0].id][1])
             op = t.ops[0]
             if isinstance(op, (ast.Lt, ast.LtE)):
                 left_denser = d
@@ -97,6 +100,10 @@ def diff_orient(ctx):
             if isinstance(n, ast.Attribute):
                 if n.attr in ('loc', 'iloc', 'values', 'T'):
                     return val(n.value)
+                if n.attr == 'index':
+                    v = val(n.value)
+                    return ('idx', v) if isinstance(v, tuple) and len(v) == 2 and \
+                        v[0] != 'k' and v[0] != 'idx' else None
                 return None
             if isinstance(n, ast.Call):
                 q = res(n.func)
@@ -130,6 +137,12 @@ def diff_orient(ctx):
                             env[t.id] = v
                     return None
                 v = val(st.value)
+                if isinstance(st.value, ast.Subscript) and isinstance(st.value.slice, ast.BinOp) \
+                        and isinstance(st.value.slice.op, ast.BitAnd):
+                    # index = index[(index >= X[0]) & (index <= X[-1])]: the common span
+                    bounds = [val(c.comparators[0]) for c in ast.walk(st.value.slice)
+                              if isinstance(c, ast.Compare) and len(c.comparators) == 1]
+                    notes['span'].append((v, bounds, st))
                 for t in st.targets:
                     if isinstance(t, ast.Name):
                         env[t.id] = v
@@ -213,6 +226,30 @@ def diff_orient(ctx):
                            'error enters the difference (a table against a sub-sampling of itself '
                            'is no longer exactly zero)' % desc)
     ctx.floor('DIFF-DENSER', n_d, 2, 'interpolating paths')
+    # the times kept are those of the table that is NOT interpolated, cut to the span of the one
+    # that is (round-10 seed C18-stale-index-after-swap: the span bounds came from a local that
+    # held the index of the second argument from before the operands were exchanged)
+    ctx.rule('DIFF-SPAN', 'on every interpolating path the time index of the table that is kept is '
+             'cut to the span of the table that is interpolated (times outside are discarded)')
+    n_s = 0
+    for d, (kind, v, node), taken, flips, notes in rets:
+        desc = ''.join('T' if x else 'F' for x in d)
+        for rs in notes['resampled']:
+            ctx.need(notes['span'], 'compute_state_difference: no common-span filter read on '
+                                    'path %s' % desc)
+            for base, bounds, st_ in notes['span']:
+                ctx.need(isinstance(base, tuple) and base[:1] == ('idx',) and bounds and
+                         all(isinstance(b, tuple) and b[:1] == ('idx',) for b in bounds),
+                         'compute_state_difference: span filter `%s` not read' % norm_text(st_)[:60])
+                n_s += 1
+                ok = all(b[1] == rs for b in bounds) and base[1] != rs
+                ctx.ob('DIFF-SPAN', ok, None, 'path %s: kept times cut to the span of the '
+                       'interpolated table' % desc, f=f, node=st_, key='span-' + desc,
+                       why='on path %s the time index of operand %s is cut to the span of '
+                           'operand(s) %s, while operand %s is the one interpolated: times outside '
+                           'its span are not discarded (all-NaN rows, and d(a, b) != -d(b, a))'
+                           % (desc, base[1], sorted({b[1] for b in bounds}), rs))
+    ctx.floor('DIFF-SPAN', n_s, 2, 'span filters on interpolating paths')
     # position columns: lat, lon scaled positively, alt negatively (down = -alt), renamed
     any_flips = [p[3] for p in rets if p[3]]
     if any_flips:
